@@ -5,6 +5,7 @@ import (
 	"encoding/gob"
 	"fmt"
 	"reflect"
+	"strings"
 	"time"
 
 	ap "github.com/go-ap/activitypub"
@@ -146,10 +147,100 @@ func c03Run(c *engine.Ctx) {
 			}
 		}
 	}
+	c03Scalars(c)
 	if c.Quick() {
 		return
 	}
 	for i := range universe.Structs {
 		universe.Level2(&universe.Structs[i], universe.Gob, func(r universe.Recipe) { c03Case(c, r, "method") })
+	}
+}
+
+// c03Scalars round-trips the types that are not vocabulary structs through their own GobEncode/GobDecode and
+// MarshalBinary/UnmarshalBinary pairs, and top-level item lists through the package functions.
+func c03Scalars(c *engine.Ctx) {
+	type sc struct {
+		name string
+		mk   func() any
+		zero func() any
+	}
+	var cases []sc
+	add := func(name string, mk func() any, zero func() any) { cases = append(cases, sc{name, mk, zero}) }
+	for i := range universe.Nested {
+		s := &universe.Nested[i]
+		for _, f := range s.Fields {
+			for _, sh := range universe.ShapesFor(f, universe.Gob, false) {
+				r := universe.Recipe{Struct: s, Value: true, Sets: []universe.Set{{Field: f, Shape: sh}}}
+				add(r.String(), func() any { return r.Build() }, func() any { return reflect.New(s.Type).Interface() })
+			}
+		}
+	}
+	for _, sh := range universe.Shapes(universe.KNLV) {
+		sh := sh
+		add("NaturalLanguageValues "+sh.Name, func() any { return sh.Build(&universe.Gen{}).Interface() }, func() any { return new(ap.NaturalLanguageValues) })
+	}
+	add("LangRefValue tagged", func() any { return ap.LangRefValue{Ref: "en-US", Value: ap.Content("text \x00 with NUL")} }, func() any { return new(ap.LangRefValue) })
+	add("LangRefValue untagged", func() any { return ap.LangRefValue{Ref: ap.NilLangRef, Value: ap.Content("t")} }, func() any { return new(ap.LangRefValue) })
+	add("Content", func() any { return ap.Content("some \"content\"\n") }, func() any { return new(ap.Content) })
+	add("LangRef", func() any { return ap.LangRef("zh-Hant") }, func() any { return new(ap.LangRef) })
+	add("MimeType", func() any { return ap.MimeType("text/html") }, func() any { return new(ap.MimeType) })
+	add("ActivityVocabularyType", func() any { return ap.NoteType }, func() any { return new(ap.ActivityVocabularyType) })
+	add("IRI", func() any { return (&universe.Gen{}).IRI() }, func() any { return new(ap.IRI) })
+	add("IRIs[3]", func() any { g := &universe.Gen{}; return ap.IRIs{g.IRI(), g.IRI(), g.IRI()} }, func() any { return new(ap.IRIs) })
+	for _, sh := range universe.ItemsShapes() {
+		sh := sh
+		add("ItemCollection "+sh.Name, func() any { return sh.Build(&universe.Gen{}).Interface() }, nil)
+	}
+	add("IRIs-as-item", func() any { g := &universe.Gen{}; return ap.IRIs{g.IRI(), g.IRI()} }, nil)
+	for _, k := range cases {
+		for _, entry := range []string{"method", "binary", "pkg"} {
+			k, entry := k, entry
+			if (entry == "pkg") != (k.zero == nil) {
+				continue
+			}
+			class := "C03|gob-rt-scalar|" + strings.Fields(k.name)[0]
+			c.Do(class, func() string { return entry + " gob pair of " + k.name }, func(t *engine.T) {
+				x := k.mk()
+				want := canon.Of(x, canon.Gob)
+				t.State(engine.Hash64("scalar", entry, k.name), true)
+				if _, ok := x.(encoding.BinaryMarshaler); entry == "binary" && !ok {
+					return // the type has no binary pair
+				}
+				b, err := gobEncode(entry, x)
+				t.Ops(1)
+				if err != nil || len(b) == 0 {
+					t.Fail(class+"|encode-failed", "%s encode: %d bytes, %v for %s", entry, len(b), err, want)
+					return
+				}
+				var got *canon.Node
+				if k.zero == nil {
+					it, err := ap.GobDecode(b)
+					if err != nil {
+						t.Fail(class+"|decode-error", "%v", err)
+						return
+					}
+					got = canon.Of(it, canon.Gob)
+				} else {
+					z := k.zero()
+					var derr error
+					if entry == "method" {
+						derr = z.(gob.GobDecoder).GobDecode(b)
+					} else if u, ok := z.(encoding.BinaryUnmarshaler); ok {
+						derr = u.UnmarshalBinary(b)
+					} else {
+						return // the type has no binary pair
+					}
+					if derr != nil {
+						t.Fail(class+"|decode-error", "%v", derr)
+						return
+					}
+					got = canon.Of(z, canon.Gob)
+				}
+				t.Ops(1)
+				for _, d := range canon.Diff(want, got) {
+					t.Fail("C03|gob-rt-scalar|"+deltaKey(strings.Fields(k.name)[0], d), "%s via %s", d, entry)
+				}
+			})
+		}
 	}
 }
